@@ -9,6 +9,7 @@
              name, so there is no {"type":..,"value":..} wrapper). *)
 From Coq Require Import Strings.String Strings.Byte.
 From Coq Require Import List Arith NArith ZArith Bool.
+From PV Require Export Base.Base64.
 From PV Require Import Base.Bytes Base.Utf8 Proto.Model Bank.Model Did.Model Chain.Model.
 From PV Require Generated.GenConst Generated.GenNft.
 Import ListNotations.
@@ -120,24 +121,7 @@ Definition quote (s : bytes) : bytes := x22 :: s ++ [x22].
 (** json.Marshal of a Go string: bytes that are not well-formed UTF-8 become U+FFFD first *)
 Definition json_string (s : bytes) : bytes := quote (esc (coerce_utf8 s)).
 
-(** base64.StdEncoding (with padding): how encoding/json writes a []byte *)
-Definition b64_alphabet : bytes := b "ABCDEFGHIJKLMNOPQRSTUVWXYZabcdefghijklmnopqrstuvwxyz0123456789+/".
-Definition b64_char (n : N) : byte := nth (N.to_nat n) b64_alphabet x3d.
-
-Fixpoint base64 (s : bytes) : bytes :=
-  match s with
-  | [] => []
-  | [a] =>
-      let n := Byte.to_N a in
-      [b64_char (n / 4); b64_char ((n mod 4) * 16); x3d; x3d]
-  | [a; c] =>
-      let n := Byte.to_N a * 256 + Byte.to_N c in
-      [b64_char (n / 1024); b64_char ((n / 16) mod 64); b64_char ((n mod 16) * 4); x3d]
-  | a :: c :: d :: r =>
-      let n := Byte.to_N a * 65536 + Byte.to_N c * 256 + Byte.to_N d in
-      b64_char (n / 262144) :: b64_char ((n / 4096) mod 64) :: b64_char ((n / 64) mod 64) :: b64_char (n mod 64)
-      :: base64 r
-  end.
+(** base64.StdEncoding (with padding), how encoding/json writes a []byte: [base64] of Base/Base64.v *)
 
 (** JSON values as far as the messages need them.  In an object, a field whose value is [JNull] is one that
     `omitempty` drops; [JNull] never occurs anywhere else. *)
